@@ -14,7 +14,7 @@ FAMILIES = ['independent', 'function', 'noisy_copy', 'const_x', 'const_y', 'dist
             'dominant', 'few_large_many_single', 'row_permuted_copy', 'identical']
 
 
-SORTS = [None, None, None, 'x', 'y']     # row layout: as generated, or grouped by one of the two vectors
+SORTS = [None, None, None, 'x', 'y', 'xg', 'yg']     # row layout: as generated, sorted by one of the two vectors, or grouped by it (one run per code, runs NOT in code order)
 
 
 @st.composite
@@ -175,7 +175,7 @@ def idpair_pair(draw):
 @st.composite
 def highcard_pair(draw):
     """Feature with more than 1024 distinct values, many of them repeated, against a target with 2-6 strata (n 3000-12000)."""
-    n = draw(st.integers(3000, 12000))
+    n = draw(st.one_of(st.integers(3000, 12000), st.integers(3000, 12000), st.integers(16500, 24000)))   # 1100+ codes x n beyond 2^24 at times
     return {'gen': {'fam': 'highcard', 'n': n, 'kx': draw(st.integers(2, 6)), 'ky': draw(st.integers(1100, max(1101, n // 2))),
                     'k': draw(st.integers(0, 2**32 - 1)), 'p': 0.0}, 'sort': draw(st.sampled_from(SORTS)), 'both': True}
 
@@ -230,9 +230,15 @@ def materialize_pair(case):
         Y, X = build_family(case['gen'])
     else:
         Y, X = np.asarray(case['Y'], dtype=np.int64), np.asarray(case['X'], dtype=np.int64)
-    if case.get('sort') in ('x', 'y') and len(X):
-        # the same rows in grouped order (a table sorted by one of the two columns): no score depends on the row order
-        order = np.argsort(X if case['sort'] == 'x' else Y, kind='stable')
+    if case.get('sort') in ('x', 'y', 'xg', 'yg') and len(X):
+        # the same rows in grouped order (a table sorted by one of the two columns, or grouped by it with the groups in first-appearance
+        # / hash order): no score depends on the row order
+        key = X if case['sort'][0] == 'x' else Y
+        if case['sort'].endswith('g'):
+            vals, inv = np.unique(key, return_inverse=True)
+            shuffled = np.random.Generator(np.random.PCG64(len(key) * 31 + len(vals))).permutation(len(vals))
+            key = shuffled[inv]
+        order = np.argsort(key, kind='stable')
         Y, X = Y[order], X[order]
     if case.get('swap'):
         Y, X = X, Y
